@@ -185,6 +185,45 @@ Theorem C09_nonblocking_round_robin_worker_pushes_to_the_drawn_edge :
 Proof. exact FactoryBlocks.worker_nonblocking_round_robin_pushes. Qed.
 Print Assumptions C09_nonblocking_round_robin_worker_pushes_to_the_drawn_edge.
 
+(* Splitter and Combiner workers hand over every flow item -- each content item, then the pallet itself (splitter); the packed
+   pallet (combiner) -- through one shared dispatch.  Non-blocking, FIRST_AVAILABLE, every world: no out-edge has room => the item
+   is dropped in that very step, one discard counted and logged for exactly this item, no edge, item or kernel event touched and no
+   process started; some out-edge has room (a Buffer, the only out-edge class these nodes support) => nothing dropped or counted,
+   no edge touched, one push process started for exactly this item and the FIRST out-edge with room. *)
+Theorem C09_nonblocking_splitter_combiner_drops_at_once :
+  forall w p n cur ph,
+  let nd := get_node w n in
+  noutsel nd = PFirst -> nblocking nd = false -> Factory.first_can_put w (nouts nd) = None -> (n < length (wnodes w))%nat ->
+  let w' := fst (Factory.sc_dispatch w p n cur ph) in
+  wedges w' = wedges w /\ witems w' = witems w /\
+  wlog w' = wlog w ++ [LDiscard (wnow w) n cur] /\
+  ndisc (get_node w' n) = S (ndisc nd) /\
+  length (wprocs w') = length (wprocs w) /\ wk w' = wk w.
+Proof. exact FactoryBlocks.dispatch_nonblocking_drops. Qed.
+Print Assumptions C09_nonblocking_splitter_combiner_drops_at_once.
+
+Theorem C09_nonblocking_splitter_combiner_pushes_to_first_with_room :
+  forall w p n cur ph e,
+  let nd := get_node w n in
+  noutsel nd = PFirst -> nblocking nd = false -> Factory.first_can_put w (nouts nd) = Some e -> Factory.is_buffer w e = true ->
+  (p < length (wprocs w))%nat ->
+  let w' := fst (Factory.sc_dispatch w p n cur ph) in
+  wedges w' = wedges w /\ witems w' = witems w /\ wlog w' = wlog w /\ ndisc (get_node w' n) = ndisc nd /\
+  length (wprocs w') = S (length (wprocs w)) /\
+  let q := nth (length (wprocs w)) (wprocs w') proc0 in
+  pkd q = KPush /\ pown q = n /\ pit q = cur /\ pix q = e /\ ppc q = 0%nat /\ palive q = true.
+Proof. exact FactoryBlocks.dispatch_nonblocking_pushes. Qed.
+Print Assumptions C09_nonblocking_splitter_combiner_pushes_to_first_with_room.
+
+(* where the dispatch is entered: a combiner worker starts with the pallet it was given; a splitter worker goes through the
+   contents head first and hands the pallet over last (C16_*: theories/Factory/FactoryBlocks.v) *)
+Theorem C09_combiner_worker_dispatches_its_pallet :
+  forall w p, ppc (Factory.me w p) = 0%nat ->
+  Factory.combworker_block w p =
+  Factory.sc_run 64 w p (pown (Factory.me w p)) (Factory.sc_dispatch w p (pown (Factory.me w p)) (pit (Factory.me w p)) 1).
+Proof. intros w p H. unfold Factory.combworker_block. rewrite H. reflexivity. Qed.
+Print Assumptions C09_combiner_worker_dispatches_its_pallet.
+
 (* Tie B: the non-blocking paths of the node processes, re-read from nodes/*.py on every run (theories/Factory/TieCommit.v): under
    FIRST_AVAILABLE the edge chosen is the first out-edge whose can_put() says yes, the item is pushed exactly when there is one
    and dropped (discard counted) otherwise; under an index policy the drawn edge's can_put() is CALLED.  The model's
